@@ -162,11 +162,23 @@ def dump_quantity(quantity, version=LATEST_VER):
     if (quantity.unit is None) or (quantity.unit == ''):
         return dump_decimal(quantity.value, version=version)
     else:
-        return 'n:%f %s' % (quantity.value, quantity.unit)
+        return 'n:%s %s' % (_format_number(quantity.value), quantity.unit)
+
+
+def _format_number(value):
+    # Haystack spells the non-finite values INF, -INF and NaN; '%f' would
+    # emit 'inf', '-inf' and 'nan', which no Haystack reader understands.
+    if value != value:
+        return 'NaN'
+    elif value == float('inf'):
+        return 'INF'
+    elif value == -float('inf'):
+        return '-INF'
+    return '%f' % value
 
 
 def dump_decimal(decimal, version=LATEST_VER):
-    return 'n:%f' % decimal
+    return 'n:%s' % _format_number(decimal)
 
 
 def dump_bool(bool_value, version=LATEST_VER):
